@@ -526,6 +526,19 @@ def predicate(line, obs, allow_known=False):
     return "unknown case family"
 
 
+def second_pass(line, obs):
+    """T-out: hand the implementation's observation of a concurrent case to the Lean driver, which
+    evaluates the model's `allowed` predicate on it"""
+    if not line.startswith("(conc ") or not obs or not obs.startswith("ph="):
+        return None
+    m = re.match(r"^ph=((?:\(\d+,\d+\))*)\|res=([^|]*)\|inv=(\d+)\|maxc=(\d+)", obs)
+    if not m:
+        return None
+    ph = " ".join(f"({a} {b})" for a, b in re.findall(r"\((\d+),(\d+)\)", m.group(1)))
+    res = " ".join(m.group(2).split(",")) if m.group(2) else ""
+    return f"(allowed {line} (obs (ph {ph}) (res {res}) (inv {m.group(3)}) (maxc {m.group(4)})))"
+
+
 def classify(line, obs, why):
     t = C.parse_sx(line)
     if t[0] == "conc":
